@@ -234,7 +234,14 @@ func errName(err error) string {
 	return n
 }
 
-func cidOf(c gnet.Conn) string { return nameOf(c.Fd()) }
+// cidOf: the connection OBJECT decides the name (bound when the loop registered it); a stale handle whose descriptor
+// number has been handed to a newer connection keeps its own name
+func cidOf(c gnet.Conn) string {
+	if name, ok := st.byPtr[fmt.Sprintf("p=%p", c)]; ok {
+		return name
+	}
+	return nameOf(c.Fd())
+}
 
 func parseAction(s string) gnet.Action {
 	switch s {
